@@ -147,8 +147,22 @@ def Diag.runTrace (d : Diag) : String :=
     " alts=[" ++ ",".intercalate (d.alts.map fun a => locStr a.1 a.2) ++ "]"
   s!"RUN sev={d.sev} title={hexOfString d.title} at={locStr d.range d.file} desc=-{alts}"
 
+/-- extra pass runs applied after the standard pipeline (`x:<letters>` of the protocol) -/
+def applyExtra (g : Cfg) : List Char → Option Cfg
+  | [] => some g
+  | 'a' :: rest => match available g with
+    | (g', true) => applyExtra g' rest
+    | (_, false) => none
+  | 'e' :: rest => applyExtra (ecallTerm g) rest
+  | 'l' :: rest => match liveness g with
+    | (g', true) => applyExtra g' rest
+    | (_, false) => none
+  | 'd' :: rest => applyExtra (deadCode g) rest
+  | _ :: rest => applyExtra g rest
+
 /-- The `pipe` request of the line protocol. -/
-def pipeTrace (stages : List String) (files : List (String × String)) (desc : Bool) : List String :=
+def pipeTrace (stages : List String) (files : List (String × String)) (desc : Bool)
+    (extra : String := "") : List String :=
   match files with
   | [] => ["BADOP"]
   | (base, _) :: _ =>
@@ -192,6 +206,14 @@ def pipeTrace (stages : List String) (files : List (String × String)) (desc : B
         let (ds, hang) := runAll desc files base
         ds.map Diag.runTrace ++ (match hang with | some s => [s!"HANG {s}"] | none => [])
       else []
-    parseLines ++ stepLines ++ fullLines ++ runLines
+    let extraLines : List String :=
+      if extra.isEmpty then [] else
+        match genFullCfg desc out.nodes with
+        | .error _ => []
+        | .ok g =>
+          match applyExtra g extra.toList with
+          | none => ["HANG extra"]
+          | some g' => cfgTrace "XCFG" g' ++ factTrace "XFACT" g' ++ (runLints g').map (Diag.trace "XLINT")
+    parseLines ++ stepLines ++ fullLines ++ extraLines ++ runLines
 
 end Rva
